@@ -245,6 +245,7 @@ func c08(r *core.Run) {
 	c08Subset(r, adms)
 	c08Range(r)
 	c08Configured(r)
+	c08Needle(r)
 }
 
 func c08Veto(r *core.Run) {
@@ -1010,7 +1011,32 @@ func c08Range(r *core.Run) {
 					if b, ok := inv.(*ssa.BinOp); ok && b.Op == token.QUO && b.Y == q {
 						if one, ok := core.ConstFloat(b.X); ok && one == 1 {
 							if qq, ok := q.(*ssa.BinOp); ok && qq.Op == token.QUO {
-								return true, "min(r, 1/r) ratio"
+								// ... and the inverted value is the one taken when the ratio exceeds 1: the block that
+								// supplies 1/r is entered through the true edge of r > 1 (or 1 < r), the plain r
+								// comes straight from that test
+								pInv, pPlain := x.Block().Preds[1-i], x.Block().Preds[i]
+								guarded := false
+								if len(pPlain.Instrs) > 0 {
+									if ifi, isIf := pPlain.Instrs[len(pPlain.Instrs)-1].(*ssa.If); isIf {
+										op, cx, cy, neg, okC := core.Compare(ifi.Cond)
+										if okC && !neg {
+											k, isK := core.ConstFloat(cy)
+											k2, isK2 := core.ConstFloat(cx)
+											switch {
+											case (op == token.GTR || op == token.GEQ) && cx == q && isK && k == 1:
+												guarded = pPlain.Succs[0] == pInv
+											case (op == token.LSS || op == token.LEQ) && cy == q && isK2 && k2 == 1:
+												guarded = pPlain.Succs[0] == pInv
+											case (op == token.LEQ || op == token.LSS) && cx == q && isK && k == 1:
+												guarded = pPlain.Succs[1] == pInv
+											}
+										}
+									}
+								}
+								if guarded {
+									return true, "min(r, 1/r) ratio (inverted exactly when r exceeds 1)"
+								}
+								return false, "ratio r / inverse 1/r chosen without the test r > 1 selecting the inverse: the term exceeds 1 for every ratio on the wrong side"
 							}
 						}
 					}
@@ -1513,4 +1539,85 @@ func tallyRoles(p *core.Program) (add, mean *ssa.Function) {
 		}
 	}
 	return
+}
+
+// c08Needle: "all of whose required calls occur in the scanned function" — a required call occurs when a call
+// signature of the scanned function CONTAINS (or equals) the required string. In every function of the detection
+// package that receives the scanned topology and a list of required strings, a substring/prefix test between the
+// two has the scanned function's string as the text searched and the required string as the text looked for;
+// the other way round, a function calling only `net` satisfies the requirement `net.Dial`.
+func c08Needle(r *core.Run) {
+	p := r.P
+	r.Explain += " (NEEDLE) in the requirement matchers a containment test searches the scanned function's string for the required string, never the reverse."
+	n := 0
+	for _, fn := range p.FuncsIn("pkg/detection") {
+		var topo, req *ssa.Parameter
+		for _, pa := range fn.Params {
+			if strings.HasSuffix(core.Deref(pa.Type()).String(), "topology.FunctionTopology") {
+				topo = pa
+			}
+			if pa.Type().String() == "[]string" {
+				req = pa
+			}
+		}
+		if topo == nil || req == nil {
+			continue
+		}
+		origin := func(v ssa.Value) string {
+			seen := map[ssa.Value]bool{}
+			res := ""
+			var walk func(v ssa.Value, d int)
+			walk = func(v ssa.Value, d int) {
+				if v == nil || seen[v] || d > 12 || res != "" {
+					return
+				}
+				seen[v] = true
+				if v == ssa.Value(topo) {
+					res = "scanned"
+					return
+				}
+				if v == ssa.Value(req) {
+					res = "required"
+					return
+				}
+				switch x := v.(type) {
+				case *ssa.Call:
+					// a pure string transformation of its first argument (ToLower, TrimSpace …)
+					if len(x.Call.Args) > 0 && strings.HasPrefix(core.CalleeName(&x.Call), "strings.") {
+						walk(x.Call.Args[0], d+1)
+					}
+					return
+				}
+				if in, ok := v.(ssa.Instruction); ok {
+					for _, op := range in.Operands(nil) {
+						if op != nil && *op != nil {
+							walk(*op, d+1)
+						}
+					}
+				}
+			}
+			walk(v, 0)
+			return res
+		}
+		core.InstrsOf(fn, func(in ssa.Instruction) {
+			c := core.CallOf(in)
+			if c == nil || len(c.Args) != 2 {
+				return
+			}
+			switch core.CalleeName(c) {
+			case "strings.Contains", "strings.HasPrefix", "strings.HasSuffix", "strings.Index":
+			default:
+				return
+			}
+			a, b := origin(c.Args[0]), origin(c.Args[1])
+			if a == "" || b == "" || a == b {
+				return
+			}
+			n++
+			r.Check(a == "scanned" && b == "required", "C08.NEEDLE", core.FuncName(fn)+"#"+strings.TrimPrefix(core.CalleeName(c), "strings."), in.Pos(),
+				"the scanned function's string is searched for the required string",
+				"the REQUIRED string is searched for the scanned function's string: a function whose call is merely a fragment of a requirement (`net` for `net.Dial`) satisfies it and is alerted on with full confidence, while a decorated real call no longer does")
+		})
+	}
+	r.Floor("C08.NEEDLE", "containment tests between scanned and required strings", n, 1)
 }
